@@ -239,7 +239,7 @@ func ruleNaNSelection(w *World, r *RuleResult) {
 			if k.IsNil() {
 				continue
 			}
-			fact := fmt.Sprintf("%s==%d", e, k.Int64())
+			fact := fmt.Sprintf("%s==%d", e, ci(k))
 			known[fact] = val
 			has[fact] = true
 		}
@@ -297,7 +297,7 @@ func ruleNaNSelection(w *World, r *RuleResult) {
 		// the nan.Form == NaNSignaling test after the copy
 		for _, d := range p.Decisions {
 			if bo, ok := d.Cond.(*ssa.BinOp); ok && bo.Op == token.EQL {
-				if k, ok := bo.Y.(*ssa.Const); ok && !k.IsNil() && k.Int64() == sn {
+				if k, ok := bo.Y.(*ssa.Const); ok && !k.IsNil() && ci(k) == sn {
 					if ld, ok := bo.X.(*ssa.UnOp); ok {
 						if fa, ok := ld.X.(*ssa.FieldAddr); ok && phiOnPath(fa.X, p) == src {
 							if d.Val != srcSignaling && has[fmt.Sprintf("%s.Form==%d", w.exprOf(f, src).String(), sn)] {
@@ -328,7 +328,7 @@ func ruleNaNSelection(w *World, r *RuleResult) {
 			for _, b := range p.Blocks {
 				for _, in := range b.Instrs {
 					if st, ok := in.(*ssa.Store); ok && w.exprOf(f, st.Addr).String() == "&d.Form" {
-						if k, ok := st.Val.(*ssa.Const); ok && k.Int64() == qn {
+						if k, ok := st.Val.(*ssa.Const); ok && ci(k) == qn {
 							stored = true
 						}
 					}
